@@ -59,7 +59,7 @@ def handle (op : String) (args : List String) (impl : String) : Option Verdict :
     let some d := (sessionFrom true (table k) (if fails then .ctorerr else .never) 0).head? | return bad
     let m := (if fails then "ctorerr;" else "ctorok;") ++ showDelta d
     let ok := match impl.splitOn ";" with
-      | [_, ds] => (match parseDelta ds with
+      | [r, ds] => (r == "ctorerr" || r == "ctorok") && (match parseDelta ds with
         | some id => decide (Balanced id)
         | none => false)
       | _ => false
@@ -70,10 +70,11 @@ def handle (op : String) (args : List String) (impl : String) : Option Verdict :
     -- are executed with the cancelled context afterwards.
     let some k := parseKind kind | return bad
     let (o, ret) := if k == Kind.ekeygen then (Outcome.rejected, "err") else (Outcome.never, "ok")
-    let some d := (busyFrom (table k) o).head? | return bad
+    let some c := (contendedFrom (table k) o).head? | return bad
+    let d := c.d
     let m := ret ++ ";" ++ showDelta d
     let ok := match impl.splitOn ";" with
-      | [r, ds] => r != "hang" && (match parseDelta ds with
+      | [r, ds] => r == ret && (match parseDelta ds with
         | some id => decide (Balanced id)
         | none => false)
       | _ => false
@@ -119,11 +120,13 @@ def handle (op : String) (args : List String) (impl : String) : Option Verdict :
     -- the harness takes the FIRST conditional return where one is taken; every other path is covered by the theorem
     let some d := (sessionFrom true (table k) o 0).head? | return bad
     let m := ret ++ ";" ++ showDelta d
+    -- (the model has no outcome in which Execute or the constructor does not return: `hang` never satisfies the property)
     let ok := match impl.splitOn ";" with
-      | [_, ds] =>
-        match parseDelta ds with
+      | [r, ds] =>
+        ["ok", "err", "refused", "ctorerr"].contains r &&
+        (match parseDelta ds with
         | some id => decide (Balanced id) && (o != .ran || decide (RunsUnderLock k id))
-        | none => false
+        | none => false)
       | _ => false
     return ⟨m, ok, s!"cell:{kind}:{repr o}"⟩
   | "seq", [its] => some <| Id.run do
@@ -147,7 +150,7 @@ def handle (op : String) (args : List String) (impl : String) : Option Verdict :
       let onE := name.startsWith "e"
       let cur := if onE then ec else fr
       let some d := (if mode == 1 then retriedDelta k cur.held
-        else if mode == 2 then (sessionFrom true (table k) o cur.held).head?.map holder.add
+        else if mode == 2 then (contendedFrom (table k) o).head?.map (·.d)
         else (sessionFrom true (table k) o cur.held).head?) | return bad
       let tot := cur.add d
       if onE then ec := tot else fr := tot
@@ -168,14 +171,14 @@ def handle (op : String) (args : List String) (impl : String) : Option Verdict :
     let some d := (sessionFrom true (table k) .ran 0).head? | return bad
     let d := if k.exclusive then { d with accL := d.accL + 1 } else d
     let n := if k.exclusive then 3 else 2
-    -- the harness does not probe the lock while a full run is in flight
-    let one := "ok;" ++ showDelta { d with runHeld := none }
+    -- the lock is probed on every relayer once its process has subscribed to its message type (the protocol is under way)
+    let one := "ok;" ++ showDelta d
     let m := "|".intercalate (List.replicate n one)
     let parts := impl.splitOn "|"
     let ok := parts.length = n && parts.all fun p =>
       match p.splitOn ";" with
       | ["ok", ds] => match parseDelta ds with
-        | some id => decide (Balanced id) && id.locks ≥ 1
+        | some id => decide (Balanced id) && id.locks ≥ 1 && decide (RunsUnderLock k id)
         | none => false
       | _ => false
     return ⟨m, ok, s!"full:{kind}"⟩
